@@ -306,6 +306,22 @@ pub fn run(args: &Args) {
 		);
 	}
 
+	// ---------- witnesses of the `_refuted` theorems, replayed on the implementation ----------
+	{
+		let y0 = apply_easing(Easing::InPowi(0), 0.0);
+		if y0 != 0.0 {
+			s.fail("Easing::InPowi(0) at 0".into(), format!("maps 0 to {y0:?}"), Some("easing_power_nonpositive"));
+		}
+		let y1 = apply_easing(Easing::InPowi(-1), 0.5);
+		if !(0.0..=1.0).contains(&y1) {
+			s.fail("Easing::InPowi(-1) at 0.5".into(), format!("value {y1:?} outside [0, 1]"), Some("easing_power_nonpositive"));
+		}
+		let m = Mapping { input_range: (2.0, 2.0), output_range: (0.0f64, 1.0f64), easing: Easing::Linear };
+		let v = m.map(2.0);
+		if !v.is_finite() {
+			s.fail("Mapping { input_range: (2.0, 2.0), output_range: (0.0, 1.0), Linear }.map(2.0)".into(), format!("{v:?}: not finite for finite arguments (0/0)"), Some("mapping_zero_width_input_range"));
+		}
+	}
 	// ---------- easing and mapping ----------
 	for i in 0..n {
 		let boundary = i % 6 == 5;
@@ -321,17 +337,27 @@ pub fn run(args: &Args) {
 			let y = apply_easing(e, x);
 			let tab = easing_oracle(e, x);
 			s.case("easing", format!("CEase {} {} {} {}", ek, z(ep), f64_bits_z(x), tab64(&tab)), &[obs64(y)], Some(format!("e:{ek}:{ep}:{}", x.to_bits())));
-			if !boundary {
+			// the laws are monitored on EVERY easing; a power <= 0 is the listed class F36 (and only that)
+			let nonpos = match e {
+				Easing::InPowi(p) | Easing::OutPowi(p) | Easing::InOutPowi(p) => p <= 0,
+				Easing::InPowf(p) | Easing::OutPowf(p) | Easing::InOutPowf(p) => p <= 0.0,
+				_ => false,
+			};
+			let class = if nonpos { Some("easing_power_nonpositive") } else { None };
+			{
 				if x == 0.0 && y != 0.0 {
-					s.fail(format!("{e:?} at 0"), format!("maps 0 to {y:?}"), None);
+					s.fail(format!("{e:?} at 0"), format!("maps 0 to {y:?}"), class);
 				}
 				if x == 1.0 && y != 1.0 {
-					s.fail(format!("{e:?} at 1"), format!("maps 1 to {y:?}"), None);
+					s.fail(format!("{e:?} at 1"), format!("maps 1 to {y:?}"), class);
+				}
+				if !(0.0..=1.0).contains(&y) {
+					s.fail(format!("{e:?} at {x:?}"), format!("value {y:?} outside [0, 1]"), class);
 				}
 				if let Some((px, py)) = prev {
 					// monotone on [0,1] (to rounding of the libm / multiplication chain)
 					if y < py - 4.0 * f64::EPSILON {
-						s.fail(format!("{e:?} at {px:?} < {x:?}"), format!("not monotone: {py:?} > {y:?}"), None);
+						s.fail(format!("{e:?} at {px:?} < {x:?}"), format!("not monotone: {py:?} > {y:?}"), class);
 					}
 				}
 				prev = Some((x, y));
